@@ -72,7 +72,9 @@ def run(drv, tier, seed, t0):
             jobs.append(j)
             if j["rc"] != 0:
                 w = drv.trace_rerun(j, "C18", tier, seed, nshards)
-                if w is not None:
+                if w is not None and "harness_error" in w:
+                    inconclusive.append("harness error: " + w["harness_error"][-200:])
+                elif w is not None:
                     w["prop"] = pid
                     violations.append(w)
                 else:
